@@ -48,7 +48,7 @@ type request struct {
 	HdrData  []byte `json:"hdr,omitempty"`
 	Key      []byte `json:"key,omitempty"`
 	Data     []byte `json:"data,omitempty"`
-	Style    int    `json:"style,omitempty"` // dbopen: 0 fresh object, 1 the object that wrote the db
+	Style    int    `json:"style,omitempty"`   // dbopen: 0 fresh object, 1 the object that wrote the db
 	CutMode  int    `json:"cutmode,omitempty"` // dbputfail: where the record write is cut (resolveCut)
 	CutSel   int64  `json:"cutsel,omitempty"`
 	// blockstore
